@@ -108,10 +108,11 @@ class Driver(object):
                     meta=dict(kind='raw', uri=text, err=err))
 
     def gen_comp(self, rnd, omit_mask=None):
-        names = ['guest', 'user', 'p@ss:w/rd?#', 'pässwörd', '雪', 'a b', '100%',
+        names = ['guest', 'user', 'amqp-publisher', 'amqps', 'xamqpx', 'p@ss:w/rd?#', 'pässwörd', '雪', 'a b', '100%',
                  'x+y=z&w', '\U0001F600', '[v6]', 'a%2Fb', 'UPPER', '~._-',
                  ''.join(chr(rnd.randrange(32, 127)) for _ in range(8))]
-        hosts = [('name', 'localhost'), ('name', 'RMQ.Example.COM'),
+        hosts = [('name', 'localhost'), ('name', 'RMQ.Example.COM'), ('name', 'amqp.example.com'),
+                 ('name', 'amqps-broker'),
                  ('name', '10.0.0.7'), ('name', 'a-b.c'), ('v6', '::1'),
                  ('v6', 'FE80::1:AbCd'), ('v6', '2001:db8::ff00:42:8329')]
         c = dict(tls=rnd.random() < 0.4, user=rnd.choice(names),
